@@ -70,3 +70,52 @@ pub fn payload(r: &mut StdRng, mode: usize, n: usize, pure: bool) -> Vec<u8> {
     }
     p
 }
+
+/// Text-level contents: valid UTF-8 drawn by Unicode category (digits of other scripts, other numerics, upper-case and other letters,
+/// white space, full-width look-alikes of the alphanumeric set, combining and zero-width characters), alone, repeated, and mixed with
+/// ASCII digits / upper-case ASCII.  The standard classifies BYTES (0-9, the 45-character set, everything else); a classification
+/// through char methods (is_numeric, is_alphanumeric, is_uppercase, is_whitespace) differs exactly on such texts.
+pub fn unicode_texts(seed: u64, thorough: bool) -> Vec<(String, Vec<u8>)> {
+    let cats: [(&str, &[char]); 8] = [
+        ("nd", &['\u{660}', '\u{669}', '\u{6f0}', '\u{6f9}', '\u{966}', '\u{9e6}', '\u{e50}', '\u{ff10}', '\u{ff19}', '\u{1d7ce}', '\u{1d7ff}']),
+        ("no", &['\u{b2}', '\u{b3}', '\u{b9}', '\u{bc}', '\u{bd}', '\u{2167}', '\u{2460}', '\u{2070}', '\u{3007}', '\u{4e09}']),
+        ("lu", &['\u{c9}', '\u{3a9}', '\u{414}', '\u{ff21}', '\u{ff3a}', '\u{1e9e}', '\u{10400}']),
+        ("ll", &['\u{e9}', '\u{df}', '\u{65e5}', '\u{627}', '\u{ff41}', '\u{3042}', '\u{ac00}']),
+        ("ws", &['\u{a0}', '\u{2003}', '\u{3000}', '\u{2028}', '\u{85}', '\u{1680}']),
+        ("fw", &['\u{ff04}', '\u{ff05}', '\u{ff0a}', '\u{ff0b}', '\u{ff0d}', '\u{ff0e}', '\u{ff0f}', '\u{ff1a}', '\u{2212}', '\u{2010}', '\u{2024}']),
+        ("zw", &['\u{301}', '\u{200b}', '\u{feff}', '\u{200d}', '\u{e0001}', '\u{fe0f}']),
+        ("emoji", &['\u{1f600}', '\u{1f680}', '\u{2764}', '\u{1f1eb}', '\u{1f1f7}']),
+    ];
+    let mut r = rng(seed, 91);
+    let mut out: Vec<(String, Vec<u8>)> = Vec::new();
+    let mut push = |tag: &str, s: String| out.push((tag.to_string(), s.into_bytes()));
+    for (name, chars) in cats.iter() {
+        for &c in chars.iter() {
+            push(name, c.to_string());                                           // alone
+            push(name, format!("{c}{c}{c}"));                                    // repeated
+            push(name, format!("2024{c}"));                                      // after ASCII digits
+            push(name, format!("{c}12"));                                        // before ASCII digits
+            push(name, format!("07{c}55"));                                      // between ASCII digits
+            push(name, format!("HELLO {c}"));                                    // after upper-case ASCII of the 45-character set
+            push(name, format!("{c}A1"));
+        }
+        // runs drawn from the category only, and mixed with the two ASCII classes
+        for len in 2..=(if thorough { 12 } else { 6 }) {
+            push(name, (0..len).map(|_| chars[r.gen_range(0..chars.len())]).collect());
+            push(name, (0..len).map(|i| if i % 2 == 0 { chars[r.gen_range(0..chars.len())] } else { (b'0' + r.gen_range(0..10u8)) as char }).collect());
+            push(name, (0..len).map(|i| if i % 3 == 0 { chars[r.gen_range(0..chars.len())] } else { ALNUM[r.gen_range(10..45)] as char }).collect());
+        }
+    }
+    // pairs of categories
+    for (i, (na, ca)) in cats.iter().enumerate() { for (nb, cb) in cats.iter().skip(i + 1) {
+        push("pair", format!("{}{}", ca[r.gen_range(0..ca.len())], cb[r.gen_range(0..cb.len())]));
+        let _ = (na, nb);
+    } }
+    // long numeric-looking texts (phone numbers, dates) in other scripts
+    for base in ['\u{660}', '\u{6f0}', '\u{966}', '\u{ff10}'] {
+        for len in [4usize, 11, 16, 40] {
+            push("phone", (0..len).map(|_| char::from_u32(base as u32 + r.gen_range(0..10)).unwrap_or('0')).collect());
+        }
+    }
+    out
+}
